@@ -22,7 +22,7 @@ Proof.
   intros P HP.
   destruct (Z_le_gt_dec P 0) as [Hle | Hgt].
   - (* P <= 0 is printed with one digit *)
-    unfold stableb, print_g. replace (P <=? 0) with true by (symmetry; apply Z.leb_le; lia).
+    unfold stableb, stableb_gen, print_g. replace (P <=? 0) with true by (symmetry; apply Z.leb_le; lia).
     vm_compute. reflexivity.
   - assert (H : exists k : nat, (k < 16)%nat /\ P = Z.of_nat (S k)).
     { exists (Z.to_nat (P - 1)). split; lia. }
